@@ -383,6 +383,30 @@ def check_embedding_paths(ctx):
         for c in calls:
             ok = len(c.args) == 3 and norm(c.args[0]) == "self.gate.matrix" and norm(c.args[1]) == "self.qubit_indices" and norm(c.args[2]) == positional_params(fi.node)[1]
             ctx.check(ok, R5, fi.key + ":" + dotted(c.func), "(gate matrix, qubit indices, register width)", f"lifting call {short(c)} does not pass (self.gate.matrix, self.qubit_indices, num_qubits)", f"{fi.module.relpath}:{c.lineno}")
+    # every exit of lifted_matrix is one of the two liftings: an exit that builds the embedding some other way (a shortcut for
+    # "easy" qubit placements, say) is a third implementation that nothing here has related to _lift_matrix
+    exits = []
+    for r in returned_exprs(fi.node):
+        stack = [r]
+        while stack:
+            e = stack.pop()
+            if isinstance(e, ast.IfExp):
+                stack += [e.body, e.orelse]
+            else:
+                exits.append(e)
+    d5 = Defs(fi.node)
+    foreign = []
+    for e in exits:
+        v = e
+        if isinstance(v, ast.Name):
+            ds = [x for x in d5.defs.get(v.id, []) if isinstance(x, ast.AST)]
+            vs = ds if ds else [v]
+        else:
+            vs = [v]
+        for x in vs:
+            if not (isinstance(x, ast.Call) and (dotted(x.func) or "").split(".")[-1] in ("_lift_matrix_numpy", "_lift_matrix_sympy", "_lift_matrix")):
+                foreign.append(x)
+    ctx.check(not foreign, R5, fi.key + ":exits", f"all {len(exits)} exits return one of the two liftings", f"lifted_matrix also returns {short(foreign[0], 100) if foreign else ''}: an embedding built outside _lift_matrix (the only construction whose Kronecker order and permutation are analysed), so the placement of the gate depends on which exit is taken", f"{fi.module.relpath}:{foreign[0].lineno}" if foreign else fi)
     for name in ("_lift_matrix_numpy", "_lift_matrix_sympy"):
         w = repo.func(f"circuits._unitary_tools:{name}")
         ctx.analysed(w)
